@@ -26,7 +26,7 @@ func init() {
 	register(&Property{
 		ID:        "C30",
 		Title:     "Windows rule flattening preserves policy verdicts for supported rules",
-		Technique: "static analysis: go/types field universe of proto.Rule, SSA reject-edge analysis (positive test ⇒ only ErrNotSupported returns), field-/context-/branch-sensitive backward provenance slicing of hns.ACLPolicy fields per direction, phi-closure analysis of the priority counter",
+		Technique: "static analysis: go/types field universe of proto.Rule, SSA reject-edge analysis (positive test ⇒ only ErrNotSupported returns), field-/context-/branch-sensitive backward provenance slicing of hns.ACLPolicy fields per direction, phi-closure analysis of the priority counter, bounded evaluation of the SSA of the list chunkers (all lengths 0..3k+1, sizes 1..4), backward pointer-provenance of the rules handed out of the policy-set cache",
 		DesignRef: "DESIGN.md §3 C30",
 		Explanation: "Decides structural necessary conditions on felix/dataplane/windows/policysets: " +
 			"(unsupported) the match-field universe of proto.Rule is computed from the generated struct; every Not* field is rejected: a positive test of it (len>0 / !=nil) leads only to `return true` in a bool helper whose true result leads only to returns of ErrNotSupported in protoRuleToHnsRules; " +
@@ -34,7 +34,7 @@ func init() {
 			"(dir) under isInbound the generated rules' RemoteAddresses/RemotePorts derive from the rule's source nets/IP sets/ports of Policy/Profile.InboundRules and LocalAddresses/LocalPorts from the destination ones, Direction is the constant In; mirrored (OutboundRules, Out) otherwise; Protocol derives from Rule.Protocol; nothing else reaches these fields; " +
 			"(prio) in GetPolicySetRules the priority written into each copied rule comes from a counter that starts at PolicyRuleBasePriority, only ever grows, is bumped on every edge where the previous rule's Action differs from the next rule's Action, and the end-of-tier rule gets a strictly larger priority; " +
 			"(ids) the policy manager uses the same id function and prefix for update and remove of policies / profiles and skips staged policies on both.",
-		NotDecided: "HNS's own evaluation order for equal priorities; that intersecting CIDRs with IP-set members and the cross product of chunks preserve the match set (IntersectCIDRs, SplitIPList/SplitPortList arithmetic); uint16 overflow of the priority; " +
+		NotDecided: "HNS's own evaluation order for equal priorities; that intersecting CIDRs with IP-set members preserves the match set (IntersectCIDRs); the chunkers beyond the evaluated bound (lengths up to 13, sizes up to 4 — the arithmetic is uniform in both, but this is a small-scope argument, not a proof) and that the four nested loops really form the cross product of the chunks; the static ACL rules (PolicySets.staticACLRules) are handed out uncopied — harmless today only because their action is validated to be Allow/Block and rewritePriorities overwrites every priority; uint16 overflow of the priority; " +
 			"the action mapping allow/deny/pass (control dependence); DstIpPortSetIds are written to the Remote side in both directions — correct only because the API validator restricts destination service matches to egress rules (assumption); " +
 			"HttpMatch and Src/DstServiceAccountMatch are neither consumed nor rejected on Windows (listed exemption: L7 criteria that no Felix dataplane enforces in the kernel; service-account matches are additionally folded into the selector IP sets).",
 		Assumptions: []string{
@@ -42,6 +42,7 @@ func init() {
 			"data dependence only: opaque callees (strings.Join, fmt.Sprintf, iputils.IntersectCIDRs, IPSetCache.GetIPSetMembers, proto.Clone) derive their result from all their arguments and nothing else",
 			"API validation admits destination service matches (DstIpPortSetIds) only in egress rules",
 			"logrus Panic* does not return",
+			"the SSA evaluator's model of ints, slices (shared backing arrays, append in place when capacity allows), min/max/len/cap/append/copy",
 		},
 		Run: runC30,
 		Fixtures: []Fixture{
@@ -69,6 +70,20 @@ func init() {
 				Old: "\tcurrentPriority++\n\tendOfTierRule := s.NewRule(isInbound, currentPriority)", New: "\tendOfTierRule := s.NewRule(isInbound, currentPriority)", Expect: "C30.prio/end-of-tier"},
 			{Name: "priority reset for every policy set", File: c30PSGo,
 				Old: "\t\tpolicySet := s.policySetIdToPolicySet[setId]\n\t\tif policySet == nil {", New: "\t\tpolicySet := s.policySetIdToPolicySet[setId]\n\t\tcurrentPriority = uint16(len(setId))\n\t\tif policySet == nil {", Expect: "C30.prio/monotone"},
+			{Name: "address chunker emits a trailing empty chunk for exact multiples (special case folded into i <= len)", File: c30PSGo,
+				Old: "\tif len(ipAddrs) == 0 {\n\t\tsplits = append(splits, []string{})\n\t}\n\tfor i := 0; i < len(ipAddrs); i += chunkSize {", New: "\tfor i := 0; i <= len(ipAddrs); i += chunkSize {", Expect: "C30.chunk/SplitIPList/partition"},
+			{Name: "port chunker yields no chunk for a rule without ports (rule rendered zero times)", File: c30PSGo,
+				Old: "\tif len(ports) == 0 {\n\t\tsplits = append(splits, []*proto.PortRange{})\n\t}\n", New: "", Expect: "C30.chunk/SplitPortList/partition"},
+			{Name: "port chunker loses the tail shorter than a full chunk", File: c30PSGo,
+				Old: "\tfor i := 0; i < len(ports); i += chunkSize {", New: "\tfor i := 0; i+chunkSize <= len(ports); i += chunkSize {", Expect: "C30.chunk/SplitPortList/partition"},
+			{Name: "per-rule limit not positive", File: c30PSGo,
+				Old: "const ipPortsPerRule = 4000", New: "const ipPortsPerRule = 0", Expect: "C30.chunk/SplitIPList/size"},
+			{Name: "cached rule handed out uncopied when its priority need not change", File: c30PSGo,
+				Old:    "\t\t\tmemberCopy := *member\n\t\t\tmemberCopy.Priority = currentPriority\n\t\t\trules = append(rules, &memberCopy)\n\n\t\t\tlastRule = &memberCopy",
+				New:    "\t\t\trule := member\n\t\t\tif member.Priority != currentPriority {\n\t\t\t\tmemberCopy := *member\n\t\t\t\tmemberCopy.Priority = currentPriority\n\t\t\t\trule = &memberCopy\n\t\t\t}\n\t\t\trules = append(rules, rule)\n\n\t\t\tlastRule = rule",
+				Expect: "C30.alias/PolicySets.GetPolicySetRules"},
+			{Name: "a single policy set's cached rule list returned as is", File: c30PSGo,
+				Old: "\t\tfor _, member := range policySet.Members {\n", New: "\t\tif len(setIds) == 1 && len(rules) == 0 {\n\t\t\trules = append(rules, policySet.Members...)\n\t\t\tbreak\n\t\t}\n\t\tfor _, member := range policySet.Members {\n", Expect: "C30.alias/PolicySets.GetPolicySetRules"},
 			{Name: "policy removed under the profile prefix", File: c30PMgrGo,
 				Old: "m.policysetsDataplane.RemovePolicySet(policyIDToString(policysets.PolicyNamePrefix, msg.Id))", New: "m.policysetsDataplane.RemovePolicySet(policyIDToString(policysets.ProfileNamePrefix, msg.Id))", Expect: "C30.ids/policy"},
 		},
@@ -124,10 +139,15 @@ func runC30(c *Ctx) {
 	c.Rule("C30.prio", "E-PAIR", "GetPolicySetRules: priority counter starts at the base, only grows, is bumped on every action change, end-of-tier rule strictly above", 3)
 	c.Rule("C30.ids", "E-PAIR", "policy manager: update and remove of a policy/profile compute the set id with the same function and prefix; staged policies skipped on both", 4)
 
+	c.Rule("C30.chunk", "E-EVAL/E-CONST", "every list chunker used by protoRuleToHnsRules, evaluated over all list lengths 0..3k+1 and chunk sizes k=1..4, yields exactly one empty chunk for an empty list and otherwise a partition of the list into consecutive non-empty chunks of at most k elements; the chunk size reaching the chunkers is a positive constant", 4)
+	c.Rule("C30.alias", "E-PROV", "no function of the policysets package hands out a pointer (or the slice) stored in the policySet.Members cache: results are copies, so the flattener's in-place rewrites cannot change what later endpoints get", 1)
+
 	c30Unsupported(c, p, ruleT, aclT)
 	c30Dir(c, p, ruleT, aclT)
 	c30Prio(c, p, aclT)
 	c30Ids(c, p)
+	c30Chunk(c, p)
+	c30Alias(c, p, aclT)
 }
 
 // ------------------------------------------------------------ unsupported --
@@ -741,5 +761,261 @@ func c30Ids(c *Ctx, p *Prog) {
 				fmt.Sprintf("staged-kind guard identical on update and remove (guarded=%v)", a.staged),
 				"update and remove disagree on skipping staged policies")
 		}
+	}
+}
+
+// ------------------------------------------------------------------ chunk --
+
+// c30Chunkers: the functions of the package with the shape
+// f(list []T, size int) [][]T that protoRuleToHnsRules calls.
+func c30Chunk(c *Ctx, p *Prog) {
+	main := p.Func(c30PSPkg, c30RuleFn)
+	if main == nil {
+		c.Lost(c30RuleFn)
+	}
+	type chunker struct {
+		fn               *ssa.Function
+		listIdx, sizeIdx int
+		sites            []CallSite
+	}
+	byFn := map[*ssa.Function]*chunker{}
+	var order []*chunker
+	shape := func(fn *ssa.Function) (int, int, bool) {
+		sig := fn.Signature
+		if sig.Results().Len() != 1 || sig.Recv() != nil {
+			return 0, 0, false
+		}
+		outer, ok := sig.Results().At(0).Type().Underlying().(*types.Slice)
+		if !ok {
+			return 0, 0, false
+		}
+		inner, ok := outer.Elem().Underlying().(*types.Slice)
+		if !ok {
+			return 0, 0, false
+		}
+		li, si := -1, -1
+		for i := 0; i < sig.Params().Len(); i++ {
+			t := sig.Params().At(i).Type()
+			switch {
+			case types.Identical(t.Underlying(), inner):
+				if li >= 0 {
+					return 0, 0, false
+				}
+				li = i
+			case types.Identical(t.Underlying(), types.Typ[types.Int]):
+				if si >= 0 {
+					return 0, 0, false
+				}
+				si = i
+			default:
+				return 0, 0, false
+			}
+		}
+		return li, si, li >= 0 && si >= 0
+	}
+	for _, cs := range callsIn(main, true, func(f *types.Func) bool { return f.Pkg() != nil && strings.HasSuffix(f.Pkg().Path(), c30PSPkg) }) {
+		fn := calleeFn(cs.Common())
+		if fn == nil || fn.Blocks == nil {
+			continue
+		}
+		li, si, ok := shape(fn)
+		if !ok {
+			continue
+		}
+		ch := byFn[fn]
+		if ch == nil {
+			ch = &chunker{fn: fn, listIdx: li, sizeIdx: si}
+			byFn[fn] = ch
+			order = append(order, ch)
+		}
+		ch.sites = append(ch.sites, cs)
+	}
+	if len(order) < 2 {
+		c.Lost("list chunkers (func(list []T, size int) [][]T) called by %s: found %d, expected the address and the port chunker", c30RuleFn, len(order))
+	}
+	for _, ch := range order {
+		name := fnName(ch.fn)
+		site := p.Pos(ch.fn.Pos())
+		// (a) bounded evaluation
+		key := "C30.chunk/" + name + "/partition"
+		bad, undec := "", ""
+		nCases := 0
+	cases:
+		for k := 1; k <= 4; k++ {
+			for n := 0; n <= 3*k+1; n++ {
+				nCases++
+				got, err := c30EvalChunker(ch.fn, ch.listIdx, ch.sizeIdx, n, k)
+				if err != nil {
+					if _, out := err.(c30Outside); out {
+						undec = fmt.Sprintf("%s(list of %d, %d): %v", name, n, k, err)
+					} else {
+						bad = fmt.Sprintf("%s(list of %d elements, chunk size %d): %v", name, n, k, err)
+					}
+					break cases
+				}
+				if why := c30PartitionDefect(got, n, k); why != "" {
+					bad = fmt.Sprintf("%s(list of %d elements, chunk size %d) yields %s: %s", name, n, k, c30ChunksString(got), why)
+					break cases
+				}
+			}
+		}
+		switch {
+		case undec != "":
+			c.Undecided(key, site, "%s", undec)
+		case bad != "":
+			c.Violate(key, site, "%s", bad)
+		default:
+			c.Ok(key, site, "%d (length, size) cases: one empty chunk for the empty list, otherwise consecutive non-empty chunks of at most size elements covering the list", nCases)
+		}
+		// (b) the size argument at every call site is a positive constant
+		key = "C30.chunk/" + name + "/size"
+		var badSize []string
+		nSrc := 0
+		for _, cs := range ch.sites {
+			for _, v := range c30ConstSources(p, cs.Common().Args[ch.sizeIdx], 3) {
+				nSrc++
+				cv, ok := v.(*ssa.Const)
+				if !ok {
+					badSize = append(badSize, "not a constant: "+path(v))
+					continue
+				}
+				if n, exact := c30ConstantInt(cv.Value); !exact || n <= 0 {
+					badSize = append(badSize, "the constant "+cv.Value.ExactString())
+				}
+			}
+		}
+		sort.Strings(badSize)
+		c.Check(len(badSize) == 0 && nSrc > 0, key, p.Pos(ch.sites[0].Instr.Pos()),
+			fmt.Sprintf("chunk size at all %d call sites is a positive constant", len(ch.sites)),
+			fmt.Sprintf("the chunk size handed to %s is %v: the chunker is only a partition for a positive size", name, badSize))
+	}
+}
+
+// c30PartitionDefect: "" if chunks is the required chunking of tokens 0..n-1.
+func c30PartitionDefect(chunks [][]int, n, k int) string {
+	if n == 0 {
+		if len(chunks) != 1 || len(chunks[0]) != 0 {
+			return "an empty list (criterion absent = match any) must yield exactly one empty chunk, otherwise the rule is rendered zero times or more than once"
+		}
+		return ""
+	}
+	next := 0
+	for i, ch := range chunks {
+		if len(ch) == 0 {
+			return fmt.Sprintf("chunk %d is empty although the list is not: it is rendered as a rule with an empty (= any) address/port field", i)
+		}
+		if len(ch) > k {
+			return fmt.Sprintf("chunk %d has %d elements, more than the per-rule limit", i, len(ch))
+		}
+		for _, t := range ch {
+			if t != next {
+				return fmt.Sprintf("chunk %d does not continue the list in order (element %d where %d is due): elements are lost, repeated or reordered", i, t, next)
+			}
+			next++
+		}
+	}
+	if next != n {
+		return fmt.Sprintf("only the first %d of %d elements are covered: the rule matches less than the policy says", next, n)
+	}
+	return ""
+}
+
+// c30ConstSources follows v through phis/conversions and, for parameters, to
+// the arguments of every call of the enclosing function in the root packages.
+func c30ConstSources(p *Prog, v ssa.Value, depth int) []ssa.Value {
+	var out []ssa.Value
+	for _, o := range origins(v, nil) {
+		prm, ok := o.V.(*ssa.Parameter)
+		if !ok || depth == 0 {
+			out = append(out, o.V)
+			continue
+		}
+		fn := prm.Parent()
+		idx := -1
+		for i, q := range fn.Params {
+			if q == prm {
+				idx = i
+			}
+		}
+		n := 0
+		for _, caller := range p.AllFuncs() {
+			allInstrs(caller, false, func(_ *ssa.Function, in ssa.Instruction) {
+				ci, ok := in.(ssa.CallInstruction)
+				if !ok || ci.Common().IsInvoke() || calleeFn(ci.Common()) != fn {
+					return
+				}
+				n++
+				out = append(out, c30ConstSources(p, ci.Common().Args[idx], depth-1)...)
+			})
+		}
+		if n == 0 {
+			out = append(out, o.V)
+		}
+	}
+	return out
+}
+
+// ------------------------------------------------------------------ alias --
+
+func c30Alias(c *Ctx, p *Prog, aclT *types.TypeName) {
+	members, _ := p.LookupObj(c30PSPkg, "policySet.Members").(*types.Var)
+	if members == nil {
+		c.Lost("policySet.Members")
+	}
+	// results that can carry *ACLPolicy: *ACLPolicy, []*ACLPolicy
+	carries := func(t types.Type) (elems, ok bool) {
+		if sl, isSl := t.Underlying().(*types.Slice); isSl {
+			t, elems = sl.Elem(), true
+		}
+		pt, isPtr := t.Underlying().(*types.Pointer)
+		if !isPtr {
+			return false, false
+		}
+		n, isN := types.Unalias(pt.Elem()).(*types.Named)
+		return elems, isN && n.Obj() == aclT
+	}
+	n := 0
+	for _, fn := range c28PkgFuncs(c, p, c30PSPkg) {
+		if fn.Parent() != nil {
+			continue // closures are reached through their parents' results
+		}
+		reads := false
+		allInstrs(fn, true, func(_ *ssa.Function, in ssa.Instruction) {
+			if fa, ok := in.(*ssa.FieldAddr); ok && fieldVar(fa) == members && addrIsRead(fa) {
+				reads = true
+			}
+		})
+		if !reads {
+			continue
+		}
+		res := fn.Signature.Results()
+		for i := 0; i < res.Len(); i++ {
+			elems, ok := carries(res.At(i).Type())
+			if !ok {
+				continue
+			}
+			n++
+			pr := newC30Prov(p, members)
+			for _, r := range returnsOf(fn) {
+				if elems {
+					pr.elems(r.Results[i], nil)
+				} else {
+					pr.ptr(r.Results[i], nil)
+				}
+			}
+			key := "C30.alias/" + fnName(fn)
+			site := p.Pos(fn.Pos())
+			switch {
+			case len(pr.cached) > 0:
+				c.Violate(key, site, "the rules returned by %s can be %v (not copies): the flattener rewrites pass->Block and the priorities of the rules it receives in place, so the cached rule is changed and every later endpoint using this policy gets the rewritten action", fnName(fn), c30Keys(pr.cached))
+			case len(pr.unknown) > 0:
+				c.Undecided(key, site, "cannot trace where the returned rule pointers come from: %v", c30Keys(pr.unknown))
+			default:
+				c.Ok(key, site, "returned rule pointers are %v; none is read from policySet.Members", c30Keys(pr.fresh))
+			}
+		}
+	}
+	if n == 0 {
+		c.Lost("no function of %s reads policySet.Members and returns ACL rules", c30PSPkg)
 	}
 }
